@@ -162,12 +162,14 @@ PROPS = {
                  "device's (entity's) registry entries and bookkeeping are gone, one remove event per entry plus one device/entity event, none for other "
                  "devices, device no longer resolvable; every other peer's snapshot is identical and a read by it is answered; the removed "
                  "connection's writer stays silent until after the approval time-out and further data changes. Non-trivial: >=2 peers hold state on the "
-                 "same local feature at a removal. Distinct by operation sequence."),
+                 "same local feature at a removal. Distinct by operation sequence."
+                 "Directed scenario (shared with C06): removal of a peer's entity / connection while the event bus is kept busy by another peer's announcement (stalled SHIP writer) and a third peer's bind / subscribe / delete call arrives in between; afterwards exactly the removed entity's entries are gone."),
         "assumptions": ["real time is used only to let the 30 ms approval time-out expire (sleep 55 ms); no timing is asserted",
                         "no message is injected on a removed connection"],
         "runs": [
             {"name": "teardown", "run": "TestTeardown", "kind": "rapid", "checks": {Q: 4000, T: 240000}, "shards": {Q: 8, T: 16}, "steps": {Q: 20, T: 40}},
             {"name": "stress", "run": "TestTeardownStress", "kind": "plain", "shards": {Q: 4, T: 16}, "env": {"VERIF_ROUNDS": {Q: 150, T: 1500}}},
+            {"name": "removal", "run": "TestRemovalDuringPublication", "kind": "rapid", "checks": {Q: 48, T: 4800}, "shards": {Q: 4, T: 16}, "shrinktime": "5s"},
         ],
     },
     "C14": {
@@ -332,11 +334,13 @@ PROPS = {
                  "feature so that the removal cascade is observable. A reference tree is compared after every message with Entities / Entity / "
                  "FeatureByAddress / Operations of BOTH peers; the event delta must be exactly one add per appeared and one remove per disappeared entity "
                  "for the right SKI; after a removal exactly the registry entries and bookkeeping inside the removed entity of that device are gone. "
-                 "Non-trivial: a notification changed the entity set after the initial reply. Distinct by sequence of (peer, kind, entity-set delta)."),
+                 "Non-trivial: a notification changed the entity set after the initial reply. Distinct by sequence of (peer, kind, entity-set delta)."
+                 "Directed scenario (shared with C10): removal of a peer's entity / connection while the event bus is kept busy by another peer's announcement (stalled SHIP writer) and a third peer's bind / subscribe / delete call arrives in between; afterwards exactly the removed entity's entries are gone."),
         "assumptions": ["feature-set changes of existing entities, later replies omitting known entities and full notifications without entity [0] are not generated (DESIGN §4 C06 NA)",
                         "whether subscribe / bind calls are granted is not asserted here (C08/C09)"],
         "runs": [
             {"name": "tree", "run": "TestRemoteTree", "kind": "rapid", "checks": {Q: 4000, T: 360000}, "shards": {Q: 4, T: 16}, "steps": {Q: 30, T: 50}, "shrinktime": "15s"},
+            {"name": "removal", "run": "TestRemovalDuringPublication", "kind": "rapid", "checks": {Q: 48, T: 4800}, "shards": {Q: 4, T: 16}, "shrinktime": "5s"},
         ],
     },
     "C16": {
